@@ -1378,3 +1378,14 @@ mut("c11-abort-breaks-drive", "C11", "src/parser/request.rs",
     """                let initial = HeaderState.into_skip(head.content_length, head.padding_length);
                 Break((data, initial))""",
     "abort", "after an abort during Params the rest of the chunk is left unparsed (seed C11-d)")
+
+mut("x-c07-enum-flag-epilogue-inverted", "C07", A,
+    """            Writeability::Reached => self.role().output_streams(),
+            Writeability::Pending => &[],""",
+    """            Writeability::Reached => &[],
+            Writeability::Pending => self.role().output_streams(),""",
+    "R7.3/close/streams-iff-writeable", "stream-end records sent exactly when the request never became writeable (flag as a private enum)", base="u2-r8")
+mut("x-c09-enum-flag-raised-unconditionally", "C09", A,
+    """                if !this.is_writeable() && this.is_final_stream() {""",
+    """                if !this.is_writeable() {""",
+    "R9.4/poll_read/writeable-guard", "writeable raised without reaching the final stream (flag as a private enum)", base="u2-r8")
